@@ -124,4 +124,4 @@ def run(run, P):
                                   'a field of the object that owns the block is assigned before the reallocation and keeps that value when the reallocation fails and the function '
                                   'returns: the object then describes memory it does not have' , ctx.path())
         solve(f, Env(), on_event, on_exit, keys, R, key_fn=lambda e: (e.ts.get('failed'), e.ts.get('pending'), e.ts.get('done'), tuple(x[0] for x in e.ts.get('dirty', ()))), on_branch=on_branch)
-    run.require(n >= (4 if run.cfg == 'base' else 2) or run.fixture_mode, 'R-REALLOC-COMMIT: fewer than 4 reallocation sites found')
+    run.require_count(n >= (4 if run.cfg == 'base' else 2) or run.fixture_mode, 'R-REALLOC-COMMIT: fewer than 4 reallocation sites found')
